@@ -15,13 +15,19 @@ let mkbox a o = { bminx = z_of_int a.(o); bminy = z_of_int a.(o+1); bminz = z_of
 let pbox b = Printf.sprintf "%d %d %d %d %d %d" (int_of_z b.bminx) (int_of_z b.bminy) (int_of_z b.bminz)
                (int_of_z b.bmaxx) (int_of_z b.bmaxy) (int_of_z b.bmaxz)
 
+let k_init = ref 128
+let k_mult = ref 4
+
 let () =
   try
     while true do
       let line = input_line stdin in
       let toks = Array.of_list (List.filter (fun s -> s <> "") (String.split_on_char ' ' line)) in
       if Array.length toks = 0 then ()
-      else if toks.(0) = "SPREAD" then begin
+      else if toks.(0) = "CONST" then begin
+        (* kInitialLength / kLengthMultiple as read from src/collider.h by the check *)
+        k_init := int_of_string toks.(1); k_mult := int_of_string toks.(2)
+      end else if toks.(0) = "SPREAD" then begin
         let b = Buffer.create 8192 in
         Buffer.add_string b "SPREAD";
         for v = 0 to 1023 do Buffer.add_string b (Printf.sprintf " %d" (int_of_z (spread_bits3 (z_of_int v)))) done;
@@ -35,7 +41,7 @@ let () =
         let leafbox = Array.init n (fun i -> mkbox a (n + 6 * i)) in
         let qoff = n + 6 * n in
         let code i = let k = int_of_z i in if k >= 0 && k < n then codes.(k) else Z0 in
-        (match build_tree (z_of_int 128) (z_of_int 4) (z_of_int n) code with
+        (match build_tree (z_of_int !k_init) (z_of_int !k_mult) (z_of_int n) code with
          | None -> Printf.printf "R %s UNDEFINED\n" id
          | Some ch ->
            let ch = Array.of_list ch in
